@@ -15,6 +15,9 @@ CLAIMS = {
  "C03": (TECH2,
          "Operator kernel add_to_current decided for all real current/value by z3 on the AST translation; the valence x trigger x muted/unscored/suppressed table decided by CrossHair over all paths for N<=2 (quick) / N<=3 (thorough) feedbacks with score literals from a menu covering each documented form; oracle is the exact rational sum.",
          "score literals from a finite menu (formatting realises symbolic floats); reals instead of floats in E2", "DESIGN.md §3 C03"),
+ "C12": (TECH,
+         "With the parser replaced by a stub raising error objects whose position attributes are symbolic within the shapes harvested from CPython on every run, CrossHair confirms over all paths (files <= 3 lines, section offsets <= 2, 3 exception classes) that verify never raises, reports exactly one syntax feedback on CPython's line shifted by the section offset, and stores the parser's tree on acceptance. The parser's own accept/reject decision is CPython's and is not re-verified.",
+         "parser stub constrained to harvested shapes; CrossHair/z3 models; harness oracle", "DESIGN.md §3 C12"),
  "C15": (TECH,
          "Within the stated bounds (texts <= 3 chars over all unicode for the single recording step from an arbitrary accumulated state; 2-3 operation histories of run/call/evaluate/clear_output with texts <= 1 char; input queues <= 3 items) the solver shows the output/input bookkeeping oracle holds on every path; outside the bounds nothing is claimed. The inductive single-step obligation makes the raw/line-view part independent of history length.",
          "exec of student code is a stub writing a symbolic string; CrossHair's str/list models, z3, CPython; harness oracles", "DESIGN.md §3 C15"),
